@@ -525,6 +525,16 @@ fn gen_cases(opts: &Opts, rng: &mut Rng, sink: &mut Sink) -> Vec<Case> {
     let thorough = opts.thorough();
     let mut cases = vec![];
     let pats = dur_patterns(rng, thorough);
+    // long streaks of failures (80 retries in a row at the cap): whatever is computed from the number
+    // of consecutive failures has to survive it
+    for &p in &[1u64, 60, 61, 300, 3600] {
+        cases.push(Case {
+            period_s: p,
+            runs: vec![],
+            sigs: vec![],
+            horizon: horizon_for(p, 80),
+        });
+    }
     for &p in PERIODS {
         // the shortest history that shows three consecutive retries
         cases.push(Case {
@@ -713,8 +723,16 @@ pub fn main(opts: &Opts) {
             }
         }
     } else {
-        cases = gen_cases(opts, &mut rng, &mut sink);
-        cases.extend(realtime_cases(opts.thorough()));
+        if opts.extra.iter().any(|e| e == "only-streaks") {
+            // C07: a peer that hangs up on every connect, 80 times in a row: the retry delay must stay
+            // positive (no busy loop), the loop must stay alive
+            for &p in &[1u64, 60, 61, 300, 3600] {
+                cases.push(Case { period_s: p, runs: vec![], sigs: vec![], horizon: horizon_for(p, 80) });
+            }
+        } else {
+            cases = gen_cases(opts, &mut rng, &mut sink);
+            cases.extend(realtime_cases(opts.thorough()));
+        }
         let mut seen = std::collections::HashSet::new();
         cases.retain(|c| seen.insert(c.descr()));
     }
